@@ -13,11 +13,11 @@ coupling listed twice (`PairsMatch`, candidates: all `dx` with `|dx_a| ≤ 4`).
 
 Full-strength statement (NOT proved, hence the `_partial` names): "for ALL `dx ∈ ℤ^dim` the list
 `pairs[key]` is the `k`-th distance shell".  What is proved is the same statement with the
-candidates restricted to the box `|dx_a| ≤ 4` (`decide +kernel` on the regenerated tables).  Missing:
-a bounding lemma "every `(u1,u2,dx)` outside the box is farther away than the largest listed shell"
-(true: the shortest basis vector has length ≥ 1 and the largest listed shell has distance ≤ 3, so
-outside the box `|v|² ≥ (3/4)·5² - |p|² > 9`); the harness oracle checks the box against the real
-`Lattice.distance` and `find_coupling_pairs`.
+candidates restricted to the box `|dx_a| ≤ 4` (`decide +kernel` on the regenerated tables).  The
+complement — every `(u1,u2,dx)` outside the box is farther away than the largest listed shell — is
+proved in `PropsPairsOutside.lean` (`C19_pairs_*_outside_box`); only the (routine) combination of
+the two into one statement quantified over all of `ℤ^dim` is not formalised.  The harness oracle
+checks the box against the real `Lattice.distance` and `find_coupling_pairs`.
 -/
 open TenpyModel.C19.Pairs
 open TenpyModel.Gen.C19Pairs
